@@ -1,16 +1,17 @@
 /* C14 replay harness: runs add/remove/lookup histories through the real C functions.
  * Used (a) under valgrind against the normal scratch build (quick tier) and (b) linked against
  * the ASan+UBSan scratch build (thorough tier).  One answer line per operation:
- *   <rc> <N> <N_active> <N_allocated> <number of live particles not found under their own hash>
+ *   <rc> <N> <N_active> <N_allocated> <number of live particles not found under their own hash> <side-array allocation>
  * Protocol (see rv/c14.py asan_text):
  *   new tree box boundary integrator | add id hash xhex yhex zhex | rm i ks | rmh h ks | get h
  *   sethash i h | setactive k | setnvar k | rmall | integrate nsteps | tupd | addvar |
- *   addo hash m r x y z vx vy vz | set name value | step n | end
+ *   addo hash m r x y z vx vy vz | set name value | step n | ksprobe n index | end
  */
 #include <stdio.h>
 #include <stdlib.h>
 #include <string.h>
 #include <stdint.h>
+#include <math.h>
 #include "rebound.h"
 
 static double h2d(const char* s){
@@ -100,6 +101,29 @@ int main(void){
             sscanf(line, "%*s %lld", &a);
             r->dt = 1e-6;
             reb_simulation_steps(r, (unsigned int)a); rc = 0;
+        }else if (!strcmp(op,"ksprobe")){
+            /* ksprobe n index: TRACE mid-step state with current_Ks[k] = k, remove particle `index`, print the leading
+               (n-1)x(n-1) block of the matrix as the real reb_simulation_remove_particle leaves it */
+            sscanf(line, "%*s %lld %lld", &a, &b);
+            struct reb_simulation* q = reb_simulation_create();
+            q->save_messages = 1;
+            q->integrator = REB_INTEGRATOR_TRACE;
+            int n = (int)a;
+            for (int i=0;i<n;i++){ struct reb_particle p = {0}; p.m = i?1e-3:1.; p.x = i; p.vy = i?1./sqrt((double)i):0.; reb_simulation_add(q, p); }
+            q->ri_trace.mode = 1;
+            q->ri_trace.N_allocated = n;
+            q->ri_trace.current_Ks = malloc(sizeof(int)*n*n);
+            q->ri_trace.encounter_map = malloc(sizeof(int)*n);
+            for (int k=0;k<n*n;k++) q->ri_trace.current_Ks[k] = k;
+            for (int k=0;k<n;k++) q->ri_trace.encounter_map[k] = k;
+            q->ri_trace.encounter_N = n; q->ri_trace.encounter_N_active = n;
+            int rr = reb_simulation_remove_particle(q, (int)b, 1);
+            printf("K %d %u", rr, q->N);
+            for (int k=0;k<(n-1)*(n-1);k++) printf(" %d", q->ri_trace.current_Ks[k]);
+            printf("\n");
+            q->ri_trace.mode = 0;
+            reb_simulation_free(q);
+            continue;
         }else if (!strcmp(op,"addvar")){
             rc = reb_simulation_add_variation_1st_order(r, -1);
         }else if (!strcmp(op,"tupd")){
@@ -119,7 +143,18 @@ int main(void){
             struct reb_particle* q = reb_simulation_particle_by_hash(r, h);
             if (q==NULL || q->hash!=h || q<r->particles || q>=r->particles+r->N) bad++;
         }
-        printf("%d %u %d %u %d\n", rc, r->N, r->N_active, r->N_allocated, bad);
+        /* the per-particle side array of the integrator in use: how many particles it is allocated for (-1: none) */
+        long side = -1;
+        switch (r->integrator){
+            case REB_INTEGRATOR_WHFAST: case REB_INTEGRATOR_SABA: side = r->ri_whfast.N_allocated; break;
+            case REB_INTEGRATOR_JANUS: side = r->ri_janus.N_allocated; break;
+            case REB_INTEGRATOR_MERCURIUS: side = r->ri_mercurius.N_allocated_dcrit; break;
+            case REB_INTEGRATOR_TRACE: side = r->ri_trace.N_allocated; break;
+            case REB_INTEGRATOR_IAS15: side = r->ri_ias15.N_allocated/3; break;
+            case REB_INTEGRATOR_BS: side = r->ri_bs.nbody_ode ? (long)(r->ri_bs.nbody_ode->length/6) : 0; break;
+            default: break;
+        }
+        printf("%d %u %d %u %d %ld\n", rc, r->N, r->N_active, r->N_allocated, bad, side);
     }
     if (r) reb_simulation_free(r);
     return 0;
